@@ -13,7 +13,10 @@ def pick(pairs, tier, seed):
     rnd.shuffle(ret)
     rnd.shuffle(stuck)
     if tier == "quick":
-        return ret[:9000] + stuck[:3000]
+        # pairs in which somebody gives up are few and all executed
+        gu = [p for p in pairs if any(isinstance(a, int) and a >= 100 for a in p["hist"])]
+        rnd.shuffle(gu)
+        return ret[:8000] + stuck[:2500] + gu[:3000]
     return ret[:150000] + stuck[:30000]
 
 
@@ -21,8 +24,9 @@ def run(tier, seed):
     cfg = open(tlc.SPECS / "MC_Startup_C06.cfg").read()
     if tier == "quick":
         cfg = cfg.replace("PrepOps <- Ops6Prep", "PrepOps <- Ops6PrepQuick")
-    return startup.family_check(PROP, tier, seed, [("C06 family, 3 components", cfg)], "Trace_C06",
-                                {"publish-res", "publish-fac", "found-published-before", "found-published-after-request", "miss-opt", "miss-nowait", "waiting"}, pick,
+    cfgb = open(tlc.SPECS / "MC_Startup_C06b.cfg").read()
+    return startup.family_check(PROP, tier, seed, [("C06 family, 3 components", cfg), ("C06 give-up family (waiters with a timeout of their own), 3 components", cfgb)], "Trace_C06",
+                                {"publish-res", "publish-fac", "found-published-before", "found-published-after-request", "miss-opt", "miss-nowait", "waiting", "gave-up"}, pick,
                                 "trees of <= 3 components whose start() (and prepare()) perform one step out of: publish (A, m) as a resource / right after an unrelated "
                                 "publication / as a sync factory / as an async factory / under two types / under the default name remapped through a `kind/m` alias; publish "
                                 "same type other name; other type same name; look (A, m) up non-optionally, optionally, or outside start-up - with every order of releasing "
